@@ -2,7 +2,7 @@
 (***************************************************************************)
 (* Validates recorded executions of the real pipeline against LSem.        *)
 (* Input: ndjson ($TRACE_FILE), one case per line:                         *)
-(*   [id, prog, obs: Seq([p, ordered, rows])]                              *)
+(*   [id, prog, dev: Seq(deviation name), obs: Seq([p, ordered, rows])]    *)
 (* where rows are what SQLite returned for predicate p of the program.     *)
 (* One TLC state per case; each state prints one verdict tuple             *)
 (*   <<"V", id, pred, "ok" | "bad", expectedRows>>                         *)
@@ -15,7 +15,7 @@ Cases == ndJsonDeserialize(IOEnv.TRACE_FILE)
 VARIABLE i
 
 Verdicts(c) ==
-  LET den == Den(c.prog)
+  LET den == DenDev(c.prog, Range(c.dev))
   IN [k \in 1..Len(c.obs) |->
         LET o == c.obs[k]
             e == den[o.p]
